@@ -47,8 +47,11 @@ func mSqrtInv(matrix Matrix) (Matrix, error) {
   }
   X1 := NullDenseMatrix(matrix.ElementType(), n, n)
   X1.MmulS(S1.MdotM(X0, t), c)
-  for t1.Mnorm(S1.MsubM(X0, X1)).GetFloat64() > 1e-8 {
+  for iter := 0; t1.Mnorm(S1.MsubM(X0, X1)).GetFloat64() > 1e-8; iter++ {
     verifhook.Tick("msqrtInv.iter")
+    if iter >= 100 {
+      return nil, errors.New("matrix square root iteration did not converge")
+    }
     X0, X1 = X1, X0
     t, err := matrixInverse.Run(S1.MaddM(I, S2.MdotM(A, S1.MdotM(X0, X0))))
     if err != nil {
